@@ -81,7 +81,7 @@ def run(ctx):
     ctx.extra["functions_never_entered"] = watch.never_entered()
 
     # (b) synthetic, exactly consistent systems in fresh processes
-    nsys = ctx.scale(40, 2000)
+    nsys = ctx.scale(120, 4000)
     synth.run_systems(ctx, nsys, mode="c04")
 
 
